@@ -252,9 +252,9 @@ Definition lock_toks (l : mlock) : list token :=
   end.
 Definition wait_toks (w : mwait) : list token :=
   match w with WtNone => [] | WtNowait => [Tk TyNowait "NOWAIT"] | WtSkipLocked => [Tk TySkip "SKIP"; Tk TyLocked "LOCKED"] end.
+Definition of_toks (l : list string) : list token := match l with [] => [] | _ => Tk TyOf "OF" :: idents_toks l end.
 Definition for_toks (o : option mfor) : list token :=
-  opt_clause [Tk TyFor "FOR"]
-    (fun f => lock_toks (fr_lock f) ++ match fr_of f with [] => [] | l => Tk TyOf "OF" :: idents_toks l end ++ wait_toks (fr_wait f)) o.
+  opt_clause [Tk TyFor "FOR"] (fun f => lock_toks (fr_lock f) ++ of_toks (fr_of f) ++ wait_toks (fr_wait f)) o.
 
 (* everything after the SELECT keyword *)
 Definition select_tail_toks (sr : srho) (s : mselect) : list token :=
